@@ -22,7 +22,13 @@ def handler(c):
             # the switches as Python bools, numpy bools or 0/1 integers (all accepted, all mean the same)
             fk = c.get('flagkind', 'bool')
             conv = {'bool': bool, 'np': np.bool_, 'int': int}[fk]
-            eng = DailyBusinessDaySimulationEngine(tsx(c['start']), tsx(c['stop']), pre_market=conv(c['pre']), post_market=conv(c['post']))
+            if c.get('built') is not None:
+                # built with other switches; the public pre_market / post_market attributes are set to the wanted ones afterwards
+                eng = DailyBusinessDaySimulationEngine(tsx(c['start']), tsx(c['stop']), pre_market=conv(c['built'][0]), post_market=conv(c['built'][1]))
+                eng.pre_market = conv(c['pre'])
+                eng.post_market = conv(c['post'])
+            else:
+                eng = DailyBusinessDaySimulationEngine(tsx(c['start']), tsx(c['stop']), pre_market=conv(c['pre']), post_market=conv(c['post']))
             walk = list(eng)
             if any(e.ts.tzinfo is None or e.ts.utcoffset().total_seconds() != 0 for e in walk):
                 return ['ok', [['not-utc', str(e.ts)] for e in walk][:3]]
@@ -72,6 +78,10 @@ def handler(c):
                                           rebalance=c['which'], long_only=True, cash_buffer_percentage=0.05,
                                           burn_in_dt=(None if c.get('burn') is None else ts(c['burn'])),
                                           data_handler=StubDataHandler([]), **kw)
+            if c['pre'] or c['post']:
+                # a session has no option for the bracket events: they are switched on on its clock before the run
+                sess.sim_engine.pre_market = c['pre']
+                sess.sim_engine.post_market = c['post']
             return ['ok', [[sec(e.ts), e.event_type] for e in sess.sim_engine]]
         if k == 'sess_sched':
             from qstrader.trading.backtest import BacktestTradingSession
